@@ -358,4 +358,31 @@ PROPS = {
 HOOK_COMMITS = ["1b2679b", "4e24fb6"]
 
 _PENDING = "check under construction in this session; not claimed until its monitor has been validated on the unchanged tree"
+# The production target is a 32-bit Raspberry Pi (GOARCH=arm: int, uint and uintptr are 32 bits wide).
+# Every in-process job below is therefore run a second time as a 32-bit build (GOARCH=386 binaries run
+# natively in the sandbox; no race detector there) over the same case lists, so that conversions and
+# products that only overflow on the production word size are observed too.
+ARCH32 = {
+    "C01": ["TestVerif_FSM"], "C02": ["TestVerif_FSM"], "C03": ["TestVerif_FSM"],
+    "C04": ["TestVerif_FSM", "TestVerif_C04Window", "TestVerif_C04Pipe"],
+    "C05": ["TestVerif_Throttle", "TestVerif_C05ClockStep", "TestVerif_ThrottleComposition"],
+    "C06": ["TestVerif_Throttle", "TestVerif_ThrottleComposition"],
+    "C07": ["TestVerif_C07"], "C08": ["TestVerif_C08"], "C09": ["TestVerif_C09"],
+    "C10": ["TestVerif_C10"],
+    "C11": ["TestVerif_C11"],
+    "C12": ["TestVerif_C12", "TestVerif_C12Pipe"],
+    "C13": ["TestVerif_C13", "TestVerif_C14Pipe"],
+    "C14": ["TestVerif_C14Pipe"],
+    "C15": ["TestVerif_C15"],
+    "C16": ["TestVerif_C16"],
+    "C17": ["TestVerif_C17", "TestVerif_C17Pipe"],
+    "C18": ["TestVerif_C18"],
+    "C19": ["TestVerif_C19"],
+    "C20": ["TestVerif_C20", "TestVerif_C20Processor"],
+}
+for _pid, _tests in ARCH32.items():
+    for _job in list(PROPS[_pid]["jobs"]):
+        if _job["test"] in _tests and not _job.get("goarch") and not _job.get("daemon"):
+            PROPS[_pid]["jobs"].append(dict(_job, goarch="386", tag="386", race=False))
+
 NOT_APPLICABLE = {("C%02d" % i): _PENDING for i in range(1, 21)}
